@@ -6,8 +6,10 @@ import (
 	"errors"
 	"io"
 	"net"
+	"os"
 	"strings"
 	"sync"
+	"syscall"
 	"time"
 )
 
@@ -32,6 +34,7 @@ type Conn struct {
 	readErr   error    // after the queue is drained Read returns this error
 	reads     int      // number of Read calls that returned data
 	failReadN int      // >0: the n-th data-returning Read fails instead (1-based)
+	failReadErr error  // the error it fails with (nil: a plain one)
 
 	// client -> server
 	writes     []WriteRec
@@ -77,7 +80,10 @@ func (c *Conn) Read(p []byte) (int, error) {
 		if len(c.segs) > 0 {
 			if c.failReadN > 0 && c.reads+1 >= c.failReadN {
 				c.failReadN = 0
-				c.readErr = errors.New("ircsim: injected read error")
+				c.readErr = c.failReadErr
+				if c.readErr == nil {
+					c.readErr = errors.New("ircsim: injected read error")
+				}
 				c.segs = nil
 				continue
 			}
@@ -246,6 +252,22 @@ func (c *Conn) Send(data string) {
 	c.mu.Unlock()
 }
 
+// ReadError returns one of the errors a broken link makes a socket read fail with, all of them final
+// (every later read fails the same way): 0 a plain error; 1 "connection timed out" - what a read returns
+// once TCP keep-alive or retransmission has given the peer up, a net.Error whose Timeout() is true; 2
+// "connection reset by peer"; 3 io.ErrUnexpectedEOF (a TLS record cut short).
+func ReadError(kind int) error {
+	switch kind % 4 {
+	case 1:
+		return &net.OpError{Op: "read", Net: "tcp", Err: os.NewSyscallError("read", syscall.ETIMEDOUT)}
+	case 2:
+		return &net.OpError{Op: "read", Net: "tcp", Err: os.NewSyscallError("read", syscall.ECONNRESET)}
+	case 3:
+		return io.ErrUnexpectedEOF
+	}
+	return errors.New("ircsim: injected read error")
+}
+
 // TempError is a transient network error (Timeout() and Temporary() are true).
 type TempError struct{}
 
@@ -317,6 +339,13 @@ func (c *Conn) FailRead(err error, now bool) {
 func (c *Conn) FailReadAt(n int) {
 	c.mu.Lock()
 	c.failReadN = n
+	c.mu.Unlock()
+}
+
+// FailReadAtWith is FailReadAt with the error to fail with.
+func (c *Conn) FailReadAtWith(n int, err error) {
+	c.mu.Lock()
+	c.failReadN, c.failReadErr = n, err
 	c.mu.Unlock()
 }
 
